@@ -34,8 +34,9 @@ Named error outcome: `intra_type_unmentioned_leaf_keyerror`.
 `factor_symmetric` + `shipped_mirrored`: with mirrored lines (all shipped files) both members of an
 inter-object factor see it.
 
-Not proved here (named gaps): that
-`SingleActiveCellOccupancy` establishes `OccInv` (property C11); the float detour of the real
+Proved elsewhere: that `SingleActiveCellOccupancy` establishes `OccInv` — `JF.C10C11.reach_occInv` (`JF/Props/C10C11.lean`) derives it
+from C11's invariant at every reachable state and restates the partition theorems with no occupancy hypothesis.
+Not proved here (named gap): the float detour of the real
 `translate` / `relative_cell` (checked by the correspondence run against the integer torus).
 -/
 namespace JF.C10
